@@ -46,6 +46,10 @@ func vfNext(label string) uint64 {
 	if vfCur == nil {
 		panic(vfAbort{"no vector"})
 	}
+	// engine-internal choices (map iteration order) have no native counterpart: skip them
+	for vfPos < len(vfCur.Values) && vfPos < len(vfCur.Labels) && vfCur.Labels[vfPos] == "maporder" {
+		vfPos++
+	}
 	if vfPos >= len(vfCur.Values) {
 		// inputs beyond the vector are unconstrained in the model: zero
 		vfPos++
